@@ -95,7 +95,7 @@ def replay(ctx, rec):
     if not t:
         print("specification-level violation; rerun ./check C07")
         return 1
-    t2 = drv.inj_trace(t["id"], t["cfg"]["api"], t["cfg"]["x"])
+    t2 = drv.inj_trace(t["id"], t["cfg"]["api"], t["cfg"]["x"], t["cfg"].get("flush_first", False))
     v = ctx.validate(FAM, "Trace_HeaderInject", "Trace_HeaderInject.cfg", [t2], label="replay", sig_fn=sig_of, shards=1)
     bad = v[t2["id"]]
     ob = t2["ev"][1]["obs"]
